@@ -515,6 +515,10 @@ func (e *Env) call(x *ast.CallExpr) Val {
 			return v
 		}
 		e.fail("no shadowed variable %s", id.Name)
+	case "idx":
+		a := e.tr(x.Args[0])
+		b := e.tr(x.Args[1])
+		return Val{T: app("idx", a.T, b.T), S: SInt}
 	case "boxstr":
 		v := e.tr(x.Args[0])
 		return Val{T: app("boxStr", v.T), S: SInt}
